@@ -1124,6 +1124,9 @@ func structuredDocs() []doc {
 		validDoc([]op{{"query", "a"}, {"query", "b"}, {"mutation", "c"}}, true),
 		validDoc([]op{{"subscription", "c"}, {"mutation", "b"}, {"query", "a"}}, false),
 		validDoc([]op{{"query", "zz"}, {"mutation", "a"}}, false), // an operation literally named like the "unknown" name
+		// names that differ only in letter case: selection is by exact name at every site (GET guard, executor)
+		validDoc([]op{{"mutation", "a"}, {"query", "A"}}, false),
+		validDoc([]op{{"query", "A"}, {"mutation", "a"}}, false),
 	)
 	return append(ds, badDocs()...)
 }
@@ -1132,6 +1135,10 @@ func opNames(d doc) []string {
 	set := map[string]bool{"": true, "zz": true}
 	for _, o := range d.ops {
 		set[o.name] = true
+		if o.name != "" { // near-miss names: a case variant of a defined name is an unknown operation
+			set[strings.ToUpper(o.name)] = true
+			set[strings.ToLower(o.name)] = true
+		}
 	}
 	var l []string
 	for n := range set {
